@@ -15,14 +15,14 @@ RULE = ('Typed expression IR (Bool/Num/Str roots; depth<=4; every documented mat
         'next over supplemental rows, variables) rendered to tally syntax and evaluated by evaluate_transaction, compared with '
         'an independent reference interpreter; plus metamorphic laws on the real evaluator (double negation, De Morgan, operand '
         'swap, short-circuit with an erroring operand, chain = conjunction, ASCII case flips of text/patterns/names, anyof = '
-        'or of contains, contains => fuzzy, warm vs cold cache, matches_transaction / one-rule engine agreement) and an '
+        'or of contains, contains => fuzzy (plus a fuzzy shard: monotone in the threshold, default = 0.80, threshold 1.0 = contains, case-insensitive, one-typo tolerance as documented, all four call forms), warm vs cold cache, matches_transaction / one-rule engine agreement) and an '
         'exhaustive enumeration of small Boolean combinations and numeric chains over boundary transactions. Non-trivial = '
         '>=2 operators and (value discriminates between the transactions it was evaluated on, or a short-circuit guards an '
         'erroring operand, or a comprehension ranges over >=2 rows); distinct by hash of the rendered expression.')
 ASSUMPTIONS = ['regular-expression semantics are Python re (the documented pattern language); fuzzy() is checked by laws only',
                'month/year/day/weekday of a missing date is undocumented: such evaluations are counted, not asserted',
                'case-insensitivity is asserted for ASCII letters only (the statement says ASCII text)']
-REQUIRED_CLASSES = ['short_circuit_guard', 'chain', 'comprehension', 'div_zero', 'law_case_flip']
+REQUIRED_CLASSES = ['short_circuit_guard', 'chain', 'comprehension', 'div_zero', 'law_case_flip', 'fuzzy_delete', 'fuzzy_substitute', 'fuzzy_text_arg']
 
 
 def tally_eval(src, txn, variables=None, rows=None):
@@ -366,6 +366,8 @@ def exhaustive(tier, stats: Stats, part, nparts):
 
 
 def replay(case):
+    if case.get('kind') == 'fuzzy':
+        return check_fuzzy(case, Stats())
     if case.get('kind') == 'ref':
         txn = lang.mk_txn(case['txn'])
         rows = lang.mk_rows(case['rows']) if case.get('rows') else {}
@@ -393,10 +395,61 @@ def replay(case):
     check(case, Stats())
 
 
+# ------------------------------------------------------------------------------------------------
+# fuzzy(): the documented approximate match (typos; "80% similar"; optional threshold) - the similarity measure itself is not documented, so
+# only laws that hold for ANY similarity in [0, 1] with "100% similar = equal" are asserted, plus the documented one-typo examples
+# ------------------------------------------------------------------------------------------------
+FUZZY_WORDS = ['STARBUCKS', 'MARKETPLACE', 'COSTCO WHOLESALE', 'Netflix.com', 'TRADER JOES', 'WALGREENS', 'amazon prime', 'SHELL OIL 5744']
+THRESHOLDS = [0.5, 0.6, 0.75, 0.8, 0.9, 0.95, 1, 1.0]
+fuzzy_st = st.fixed_dictionaries({
+    'kind': st.just('fuzzy'), 'word': st.sampled_from(FUZZY_WORDS), 'typo': st.sampled_from(['none', 'delete', 'substitute', 'unrelated', 'transpose']), 'pos': st.integers(1, 30),
+    'before': st.lists(lang.word, max_size=2), 'after': st.lists(lang.word, max_size=2), 'where': st.sampled_from(['description', 'description', 'field']),
+    't1': st.sampled_from(THRESHOLDS), 't2': st.sampled_from(THRESHOLDS), 'flip': st.integers(0, 65535), 'txn': lang.txn_case})
+
+
+def check_fuzzy(case, stats: Stats):
+    w = case['word']
+    i = 1 + case['pos'] % (len(w) - 2)
+    seen = {'none': w, 'delete': w[:i] + w[i + 1:], 'substitute': w[:i] + ('X' if w[i].upper() != 'X' else 'Q') + w[i + 1:],
+            'transpose': w[:i] + w[i + 1] + w[i] + w[i + 2:], 'unrelated': 'ZZZQ 0000'}[case['typo']]
+    text = ' '.join(case['before'] + [seen] + case['after'])
+    tc = dict(case['txn'], description=text if case['where'] == 'description' else 'SOMETHING ELSE', field={'memo': text} if case['where'] == 'field' else case['txn']['field'])
+    txn = lang.mk_txn(tc)
+    targ = [] if case['where'] == 'description' else ['field.memo']
+
+    def F(pattern, thr=None, tx=txn):
+        args = targ + [lang.lit(pattern)] + ([repr(thr)] if thr is not None else [])
+        r = tally_eval('fuzzy(' + ', '.join(args) + ')', tx)
+        if r[0] != 'val' or not isinstance(r[1], bool):
+            raise Violation(f'fuzzy({", ".join(args)}) on {text!r} gave {r!r}', case, 'fuzzy-value')
+        return r[1]
+    lo, hi = sorted([case['t1'], case['t2']])
+    contains = tally_eval(f'contains({", ".join(targ + [lang.lit(w)])})', txn)[1]
+    if F(w, hi) and not F(w, lo):
+        raise Violation(f'fuzzy is not monotone in its threshold: true at {hi} but false at {lo} for {w!r} in {text!r}', case, 'fuzzy-monotone')
+    if F(w) != F(w, 0.8):
+        raise Violation(f'default threshold is not the documented 0.80 for {w!r} in {text!r}', case, 'fuzzy-default')
+    if contains and not (F(w) and F(w, 1.0) and F(w, 1)):
+        raise Violation(f'contains({w!r}) is true but fuzzy is false on {text!r}', case, 'law-fuzzy')
+    if F(w, 1.0) != contains:
+        raise Violation(f'fuzzy({w!r}, 1.0) = {F(w, 1.0)} but contains = {contains} on {text!r} (100% similar means equal)', case, 'fuzzy-exact')
+    if F(lang.flip_case(w, case['flip']), lo) != F(w, lo):
+        raise Violation(f'letter case of the fuzzy pattern changed the result for {w!r} in {text!r}', case, 'law-case')
+    tx2 = lang.mk_txn(dict(tc, description=lang.flip_case(tc['description'], case['flip']), field=None if tc['field'] is None else {k: lang.flip_case(v, case['flip']) for k, v in tc['field'].items()}))
+    if F(w, lo, tx2) != F(w, lo):
+        raise Violation(f'letter case of the text changed fuzzy({w!r}) on {text!r}', case, 'law-case')
+    if case['typo'] in ('delete', 'substitute') and not F(w):
+        raise Violation(f'documented typo tolerance: {seen!r} (one {case["typo"]}) inside {text!r} does not fuzzy-match {w!r} at the default threshold', case, 'fuzzy-typo')
+    if case['typo'] == 'unrelated' and F(w, 0.9):
+        raise Violation(f'fuzzy({w!r}, 0.9) matches unrelated text {text!r}', case, 'fuzzy-unrelated')
+    stats.case(jhash(case), case['typo'] != 'none' and bool(case['before'] or case['after']), {'fuzzy', 'fuzzy_' + case['typo'], 'fuzzy_text_arg' if targ else 'fuzzy_description'},
+               sample={'text': text, 'word': w} if len(stats.samples) < 2 else None)
+
+
 def shards(tier):
     n = 400 if tier == 'quick' else 12000
     ex = 4 if tier == 'quick' else 8
-    return [(f'exhaustive:{i}:{ex}', 0) for i in range(ex)] + [('random', n)] * (16 - ex if tier == 'quick' else 16)
+    return [(f'exhaustive:{i}:{ex}', 0) for i in range(ex)] + [('random', n)] * (15 - ex if tier == 'quick' else 15) + [('fuzzy', 600 if tier == 'quick' else 20000)]
 
 
 def run_shard(kind, n, seed, tier):
@@ -407,6 +460,9 @@ def run_shard(kind, n, seed, tier):
             exhaustive(tier, s, int(part), int(nparts))
         except Violation as v:
             s.violation(v)
+        return s
+    if kind == 'fuzzy':
+        campaign(fuzzy_st, check_fuzzy, n, seed, s, tier)
         return s
     campaign(case_st, check, n, seed, s, tier)
     return s
